@@ -928,16 +928,25 @@ def _sampling(rep, prog, rot, pm):
         e = astu.strip_casts(e)
         okA = e['k'] == 'Call' and e['callee']['qn'] in ('atan2', 'std::atan2') and astu.num_value(astu.strip_casts(e['args'][1])) == 1 \
             and any('_cone_angle2_' in x and 'isnormal' in x for x in g)
+        unresolved = False
         if okA:
             h = R.call_form(e['args'][0], ('hypot', 'std::hypot'))
+            if h is None and astu.strip_casts(e['args'][0])['k'] == 'Ref' and \
+                    L.decl.get(astu.strip_casts(e['args'][0]).get('id')) is None:
+                unresolved = True        # the argument is a local of another function (the cache is filled elsewhere)
             okA = h is not None and sorted(R.tan_of(x) or '?' for x in h['args']) == ['_cone_angle2_', '_cone_angle_']
         if not okA:
             detail = astu.src(e)
+        if unresolved:
+            rep.cannot_decide('SAMPLING', where(rot, bnode.get('l')), 'window:enclosing-cone: the cone bound is `%s` computed in another '
+                              'function; its argument is not followed there' % astu.src(e))
+            okA = None
     else:
         detail = 'definitions: %s' % [astu.src(d) for d, g in ds]
-    rep.add('SAMPLING', 'window:enclosing-cone', where(rot, bnode.get('l')), 'the cone bound %s is _cone_angle_, or '
-            'atan2(hypot(tan _cone_angle_, tan _cone_angle2_), 1) (the corner of the window) when a window is given' % bounds.pop(),
-            okA, detail)
+    if okA is not None:
+        rep.add('SAMPLING', 'window:enclosing-cone', where(rot, bnode.get('l')), 'the cone bound %s is _cone_angle_, or '
+                'atan2(hypot(tan _cone_angle_, tan _cone_angle2_), 1) (the corner of the window) when a window is given' % bounds.pop(),
+                okA, detail)
     for w, mode in zip(whiles, ('target', 'selection')):
         _acceptance(rep, rot, L, R, w, mode)
     for m, (srcs, missing) in sorted(R.stale.items()):
@@ -975,7 +984,15 @@ class _Resolver:
         while id(x) in pm:
             par = pm[id(x)]
             if par['k'] == 'If' and x is par.get('t'):
-                out.append(astu.src(par['c']))
+                txt_ = astu.src(par['c'])
+                # a never-reassigned bool local stands for its initialiser (`const bool rectangular_cut = std::isnormal(_cone_angle2_)`)
+                for r_ in astu.walk(par['c']):
+                    if r_['k'] == 'Ref' and r_.get('dk') == 'local':
+                        d_ = self.L.decl.get(r_.get('id'))
+                        if d_ is not None and 'init' in d_ and d_.get('ty', '').replace('const ', '').strip() == 'bool' \
+                                and not self.L.assigns.get(r_.get('id')):
+                            txt_ += ' /* %s = %s */' % (r_['name'], astu.src(d_['init']))
+                out.append(txt_)
             x = par
         return out
 
@@ -998,9 +1015,22 @@ class _Resolver:
                 if not self.sentinel(a['b']):
                     out.append((a['b'], self.guards(a, fpm)))
                     srcs |= self._sources(a['b'], f)
-            # staleness: every function that writes a source must also write the cached member
+            # staleness: every function that writes a source must also write the cached member - itself or through a member
+            # function it calls (`_update_aperture_()` called by reset() and _set_())
             missing = []
             writers_of_m = {f['qn'] + str(f['l']) for f, a, fpm in ws}
+            grew = True
+            while grew:
+                grew = False
+                for key2, f2 in self.prog.functions.items():
+                    if f2.get('cls') != MDL or f2['qn'] + str(f2['l']) in writers_of_m:
+                        continue
+                    for c_ in astu.calls(f2['body']):
+                        if c_['callee'].get('cls') == MDL and any(f3['qn'] + str(f3['l']) in writers_of_m
+                                                                    for f3 in self.prog.fns(c_['callee']['qn'])):
+                            writers_of_m.add(f2['qn'] + str(f2['l']))
+                            grew = True
+                            break
             for s_ in srcs:
                 for f, a, fpm in self.member_writes.get(s_, []):
                     if f['qn'] + str(f['l']) not in writers_of_m and (f['name'], (s_,)) not in [(x, tuple(y)) for x, y in missing]:
